@@ -46,6 +46,10 @@ STDERRS = [
     ">> Something broke parsing the form /data/meta/instanceID\n", "x\ty /data/q\tat /data/r\n",
     "java.lang.RuntimeException: org.javarosa.xpath.XPathUnhandledException: cannot handle function 'foo' at /data/q1\n",
     "java.lang.RuntimeException: org.javarosa.xform.parse.XFormParseException: bad bind /data/g/q-1\njava.lang.RuntimeException: java.lang.NullPointerException\n",
+    # a diagnostic that merely begins like the launcher's own message: cleaned like any other
+    "Error: could not evaluate /data/q1\n\tat org.javarosa.Foo.bar(Foo.java:12)\n",
+    "Error: Invalid or corrupt input /data/household-size\njava.lang.RuntimeException: bad /data/q1\n\tat x.y(Z.java:3)\n",
+    "Error: /data/q1 depends on itself\n",
 ]
 
 
@@ -105,7 +109,7 @@ class CleanerOp(Op):
                 ".java:", "Foo.java:3", "java.lang.RuntimeException: ", "java.lang.NullPointerException", "org.javarosa.xpath.XPathUnhandledException: ",
                 "org.javarosa.xform.parse.XFormParseException", "\njava.lang.RuntimeException: org.javarosa.xpath.XPathUnhandledException: ",
                 "\njava.lang.RuntimeException: java.lang.NullPointerException", "\norg.javarosa.xpath.XPathUnhandledException: org.javarosa.xform.parse.XFormParseException: ",
-                "\njava.lang.RuntimeException: org.javarosa.xform.parse.XFormParseException", "\njava.lang.NullPointerExceptionorg.javarosa.xform.parse.XFormParseException", "/", "//", "-", "_", "/A/b", "/9/8", "\r\n", "same\nsame", "é", ":", "${q}", "/data/hh-size/p_h", "\r", " \n"]
+                "\njava.lang.RuntimeException: org.javarosa.xform.parse.XFormParseException", "\njava.lang.NullPointerExceptionorg.javarosa.xform.parse.XFormParseException", "/", "//", "-", "_", "/A/b", "/9/8", "\r\n", "same\nsame", "é", ":", "${q}", "/data/hh-size/p_h", "\r", " \n", "Error: ", "Error: Unable to access jarfile", "Error: Unable", "\nError: ", "jarfile"]
         cases = []
         for i in range(n):
             s = rng.choice(STDERRS) if i < len(STDERRS) * 2 else "".join(rng.choice(frag) for _ in range(rng.randint(1, 9)))
@@ -387,6 +391,65 @@ def oracle(seed, tier, searching=False):
                     fails.append({"what": f"--json reports code {(resp or {}).get('code')} for an accepted form", "input": inp})
             if residue:
                 fails.append({"what": f"temporary file(s) survive the command-line call: {residue}", "input": inp})
+        # the other external validator, Enketo Validate: a stand-in executable in place of the bundled one (exit code, stdout, stderr from the environment)
+        import pyxform.validators.enketo_validate as ev
+        fake_enketo = sb.root / "enketo-validate"
+        fake_enketo.write_text('#!/bin/sh\nif [ -n "$FAKE_STDOUT" ]; then printf "%s" "$FAKE_STDOUT"; fi\nif [ -n "$FAKE_STDERR_FILE" ]; then cat "$FAKE_STDERR_FILE" >&2; fi\nexit ${FAKE_RC:-0}\n')
+        fake_enketo.chmod(fake_enketo.stat().st_mode | stat.S_IEXEC)
+        saved_ev = (ev.ENKETO_VALIDATE_PATH, ev._call_validator.__defaults__)
+        ev.ENKETO_VALIDATE_PATH = str(fake_enketo)
+        ev._call_validator.__defaults__ = (str(fake_enketo),)
+        try:
+            for i in range(20 if tier == "quick" else 200):
+                rc = rng.choice([0, 0, 1, 2])
+                err = rng.choice(["", "Error in /data/q1: bad\n", "/data/g/q-1 is wrong\nsecond line\n", "warning only\n"])
+                out_txt = rng.choice(["", "a warning about the form\n"])
+                sb.set(True, rc, err)
+                os.environ["FAKE_STDOUT"] = out_txt
+                n += 1
+                keys.add(("enketo", rc, err, out_txt))
+                inp = {"validator": "enketo", "rc": rc, "stderr": err, "stdout": out_txt}
+                via_cli = rng.random() < 0.5
+                if not via_cli:
+                    try:
+                        r = convert(MD_OK, validate=False, enketo=True)
+                        got, msg = "ok", ""
+                    except ev.EnketoValidateError as e:
+                        got, msg = "EnketoValidateError", str(e)
+                    except Exception as e:   # noqa: BLE001
+                        got, msg = repr(e), ""
+                    want = "EnketoValidateError" if rc > 0 else "ok"
+                    if got != want:
+                        fails.append({"what": f"library outcome with Enketo Validate: {got}, documented {want}", "input": inp})
+                    elif got == "ok" and out_txt and not any(out_txt.strip() in w for w in r.warnings):
+                        fails.append({"what": "Enketo's output is not surfaced as a warning", "input": inp, "observed": r.warnings})
+                    elif got != "ok" and "/data/q1" in err and "${q1}" not in msg:
+                        fails.append({"what": "Enketo rejection: instance path not shown as ${name}", "input": inp, "observed": msg})
+                else:
+                    js = rng.random() < 0.5
+                    pre = rng.random() < 0.5
+                    resp, logged, uncaught, out_state, residue_cli, _ = run_cli(sb, MD_OK, ["--enketo_validate"] + (["--json"] if js else []), pre)
+                    inp.update({"cli": True, "json": js, "pre_existing_output": pre})
+                    if rc > 0:
+                        if out_state is not None and not (js and out_state == "old"):
+                            fails.append({"what": f"the command-line tool ({'--json' if js else 'plain'}) left {'the earlier file' if out_state == 'old' else 'an XForm'} at the output path although Enketo rejected the form", "input": inp})
+                        if js and (resp or {}).get("code") != 999:
+                            fails.append({"what": f"--json reports code {(resp or {}).get('code')} instead of 999 for a form Enketo rejected", "input": inp})
+                        if not js and (uncaught or not logged):
+                            fails.append({"what": "plain mode: an Enketo rejection is not reported as a logged error" + (" (the tool ended with an uncaught exception)" if uncaught else ""), "input": inp})
+                    else:
+                        if out_state != libs["ok"].xform:
+                            fails.append({"what": "Enketo accepted: the file written by the command-line tool differs from the library result", "input": inp, "observed": (out_state or "")[:300]})
+                        if js and (resp or {}).get("code") not in (100, 101):
+                            fails.append({"what": f"--json reports code {(resp or {}).get('code')} for a form Enketo accepted", "input": inp})
+                residue = sorted(p.name for p in sb.tmp.iterdir())
+                if residue:
+                    fails.append({"what": f"temporary file(s) survive the call with Enketo Validate: {residue}", "input": inp})
+                    for p in sb.tmp.iterdir():
+                        p.unlink()
+        finally:
+            ev.ENKETO_VALIDATE_PATH, ev._call_validator.__defaults__ = saved_ev
+            os.environ.pop("FAKE_STDOUT", None)
         ov._call_validator = lambda path_to_xform, bin_file_path=None: run_popen_with_timeout(["java", "-jar", "x", path_to_xform], 1)
         try:
             sb.set(True, 0, "", sleep="3")
@@ -405,7 +468,8 @@ def oracle(seed, tier, searching=False):
         "rule": "convert(validate=True) under a stand-in java (exit codes 0,1,2,3,143,255, self-kill, absent, sleeping past a 1 s watchdog) x stderr "
                 "payloads x valid/invalid forms; outcome class, surfaced warnings, cleaned error text and the private TMPDIR listing are checked "
                 "against the documented table; the command-line tool (plain and --json, output file present before or not) is judged on the output path, the reported failure, "
-                "equality with the library result and the TMPDIR listing; distinct by (java, rc, kill, stderr, form)",
+                "equality with the library result and the TMPDIR listing; the same outcomes with a stand-in Enketo Validate (library enketo=True and --enketo_validate); "
+                "distinct by (java, rc, kill, stderr, form)",
         "failures": [dict(f, reproduce="cd /verif && /venv/bin/python harness/check.py C18") for f in fails],
         "samples": [{"java": True, "rc": 2, "stderr": STDERRS[2]}],
     }
